@@ -11,6 +11,8 @@ the quick tier's `-DOSMIUM_VERIF_FLEXMEM_MIN_DENSE_ENTRIES=200` build and the re
 -/
 import Osmium.Lemmas.IndexMap
 import Osmium.Generated.C12Constants
+import Osmium.Generated.Src
+import Osmium.Lemmas.CxxSem
 
 set_option linter.unusedSectionVars false
 
@@ -247,5 +249,50 @@ example : (sparseImpl 2 (0 : Int)).dumpAsArray #[(1, 11), (4, 44)] = some #[0, 1
 example : NodesOk (0 : Int) [(5, 50), (-3, 30), (2, 20)] := by
   refine ⟨by decide, by decide, ?_⟩
   intro p hp; simp at hp; rcases hp with rfl | rfl | rfl <;> simp [idMax]
+
+/-! ### source ties (tools/cxx2lean.py): the functions REGENERATED from /repo's C++ source on every run
+    (Osmium/Generated/Src.lean) equal the expressions the model `Flex` uses (Model/IndexMap.lean writes
+    `block(id)` as `id / 2 ^ P.bits`, `offset(id)` as `id % 2 ^ P.bits`, and the switch test of `set_sparse` as
+    `s.sparse.size ≥ P.minDense` / `s.maxId < s.sparse.size * P.factor`), at the parameters of the source
+    (instantiation `FlexMem<uint64_t, Location>`; `Generated.C12` are the constants the check regenerates). -/
+
+section SrcTies
+open Osmium.Generated Osmium.CxxSem
+
+/-- `FlexMem::block(id)` = `id / 2 ^ bits`, `FlexMem::offset(id)` = `id % 2 ^ bits`; never undefined -/
+theorem src_tie_flex_block_offset (id : Nat) :
+    Src.FlexMem.FlexMem_u64_Location.block (id : Int) = ((id / 2 ^ Generated.C12.flexBits : Nat) : Int) ∧
+    Src.FlexMem.FlexMem_u64_Location.offset (id : Int) = ((id % 2 ^ Generated.C12.flexBits : Nat) : Int) ∧
+    Src.FlexMem.FlexMem_u64_Location.block_defined (id : Int) = true ∧
+    Src.FlexMem.FlexMem_u64_Location.offset_defined (id : Int) = true := by
+  have e : wrapS 32 Src.FlexMem.FlexMem_u64_Location.bits = ((16 : Nat) : Int) := by decide
+  have e' : wrapU 64 (Src.FlexMem.FlexMem_u64_Location.block_size - 1) = ((2 ^ 16 - 1 : Nat) : Int) := by decide
+  have eb : Generated.C12.flexBits = 16 := by decide
+  refine ⟨?_, ?_, ?_, ?_⟩
+  · simp only [Src.FlexMem.FlexMem_u64_Location.block, e, shr_nat, Nat.shiftRight_eq_div_pow, eb]
+  · simp only [Src.FlexMem.FlexMem_u64_Location.offset, e', band_nat, Nat.and_two_pow_sub_one_eq_mod, eb]
+  · simp only [Src.FlexMem.FlexMem_u64_Location.block_defined]; decide
+  · simp only [Src.FlexMem.FlexMem_u64_Location.offset_defined]
+
+/-- the two nested conditions of `set_sparse` (`size() >= min_dense_entries`, `m_max_id < size() * density_factor`)
+    = the model's switch test, as long as `size * density_factor` does not wrap in 64 bits -/
+theorem src_tie_flex_switch (s : Src.FlexMem.FlexMem_u64_Location) (ht : Src.FlexMem.FlexMem_u64_Location.typed s = true)
+    (hs : s.m_sparse_entries.size * 3 < 2 ^ 64) :
+    (Src.FlexMem.set_sparse_cond_min_entries s = true ↔ s.m_sparse_entries.size.toNat ≥ Generated.C12.flexMinDenseEntries) ∧
+    (Src.FlexMem.set_sparse_cond_density s = true ↔
+      s.m_max_id.toNat < s.m_sparse_entries.size.toNat * Generated.C12.flexDensityFactor) := by
+  simp only [Src.FlexMem.FlexMem_u64_Location.typed, Bool.and_eq_true, inU_iff] at ht
+  have e1 : wrapU 64 Src.FlexMem.FlexMem_u64_Location.min_dense_entries = 16777215 := by decide
+  have e2 : wrapU 64 (s.m_sparse_entries.size * Src.FlexMem.FlexMem_u64_Location.density_factor) = s.m_sparse_entries.size * 3 := by
+    apply wrapU_eq <;> simp only [Src.FlexMem.FlexMem_u64_Location.density_factor] <;> omega
+  have c1 : Generated.C12.flexMinDenseEntries = 16777215 := by decide
+  have c2 : Generated.C12.flexDensityFactor = 3 := by decide
+  simp only [Src.FlexMem.set_sparse_cond_min_entries, Src.FlexMem.set_sparse_cond_density, e1, e2, c1, c2, ge_iff, lt_iff]
+  constructor <;> omega
+
+example : Src.FlexMem.FlexMem_u64_Location.typed ⟨⟨⟩, ⟨16777215⟩, ⟨0⟩, 40000000, false⟩ = true ∧
+    (16777215 : Int) * 3 < 2 ^ 64 := by decide
+
+end SrcTies
 
 end Osmium.IndexMap.C12
